@@ -81,7 +81,7 @@ Theorem toosmall_step mb s offs s' outs :
   (dl = [] -> fo = g_off s) /\
   ((exists b, outs = deliver dl ++ [Fetch fo b] /\ g_buf s < b /\ (forall m, mb = Some m -> b <= m)
               /\ s' = mkG fo b false)
-   \/ (outs = StartFailed :: deliver dl /\ (exists m, mb = Some m /\ m <= g_buf s) /\ s' = mkG fo (g_buf s) true)).
+   \/ (outs = [StartFailed] /\ (exists m, mb = Some m /\ m <= g_buf s) /\ s' = mkG (g_off s) (g_buf s) true)).
 Proof.
   intros Hf Hp. unfold gstep. rewrite Hf. destruct (accept (g_off s) offs) as [dl fo] eqn:A. cbn [fst snd].
   destruct (accept_spec _ _ _ _ A) as (_ & _ & _ & H4 & _).
@@ -103,17 +103,17 @@ Lemma delivered_deliver dl : delivered (deliver dl) = dl.
 Proof. destruct dl; cbn; auto. rewrite app_nil_r. reflexivity. Qed.
 
 Lemma gstep_delivered mb s e s' outs : gstep mb s e = (s', outs) ->
-  (g_failed s = true /\ s' = s /\ outs = []) \/
+  (delivered outs = [] /\ g_off s' = g_off s) \/
   (g_failed s = false /\ match e with Reply offs _ => accept (g_off s) offs = (delivered outs, g_off s') end).
 Proof.
   unfold gstep. destruct (g_failed s) eqn:F.
   - intros [= <- <-]. left; auto.
-  - intro H. right. split; auto. destruct e as [offs tail]. destruct (accept (g_off s) offs) as [dl fo] eqn:A.
-    assert (X : delivered (StartFailed :: deliver dl) = dl).
-    { change (StartFailed :: deliver dl) with ([StartFailed] ++ deliver dl). rewrite delivered_app, delivered_deliver. reflexivity. }
+  - intro H. destruct e as [offs tail]. destruct (accept (g_off s) offs) as [dl fo] eqn:A.
     assert (Y : forall b, delivered (deliver dl ++ [Fetch fo b]) = dl).
     { intro b. rewrite delivered_app, delivered_deliver. cbn. apply app_nil_r. }
-    destruct tail; try destruct (grow (g_buf s) mb); inversion H; subst; cbn [g_off]; rewrite ?X, ?Y; reflexivity.
+    destruct tail; try destruct (grow (g_buf s) mb); inversion H; subst; cbn [g_off];
+      try (right; split; [reflexivity|]; rewrite ?Y; reflexivity).
+    left. split; reflexivity.
 Qed.
 
 Lemma sorted_app_lt (a b : list Z) x :
@@ -136,8 +136,8 @@ Proof.
   - intros [= <- <-]. cbn. repeat split; try lia; constructor.
   - destruct (gstep mb s e) as [s1 o1] eqn:E1. destruct (grun mb s1 r) as [s2 o2] eqn:E2.
     intros [= <- <-]. destruct (IH _ _ _ E2) as (L2 & S2 & F2). rewrite delivered_app.
-    destruct (gstep_delivered _ _ _ _ _ E1) as [(Hf & -> & ->) | (Hf & Ha)].
-    + cbn [delivered flat_map app]. auto.
+    destruct (gstep_delivered _ _ _ _ _ E1) as [(Hd & Ho) | (Hf & Ha)].
+    + rewrite Hd, <- Ho. cbn [app]. auto.
     + destruct e as [offs tail]. destruct (accept_spec _ _ _ _ Ha) as (L1 & F1 & S1 & _).
       split; [lia|]. split.
       * apply (sorted_app_lt _ _ (g_off s1)); auto.
@@ -244,8 +244,8 @@ Proof.
   - intros [Hh Hr]. destruct (gstep mb s e) as [s1 o1] eqn:E1. cbn [fst] in Hr.
     destruct (grun mb s1 r) as [s2 o2] eqn:E2. intros [= <- <-]. rewrite delivered_app.
     specialize (IH _ _ _ Hr E2).
-    destruct (gstep_delivered _ _ _ _ _ E1) as [(Hf & -> & ->) | (Hf & Ha)].
-    + cbn [delivered flat_map app]. exact IH.
+    destruct (gstep_delivered _ _ _ _ _ E1) as [(Hd & Ho) | (Hf & Ha)].
+    + rewrite Hd, <- Ho. cbn [app]. exact IH.
     + destruct e as [offs tail]. destruct (Hh Hf) as (pre & run & rest & -> & Hpre & Hfrom).
       rewrite accept_app_below in Ha by exact Hpre.
       pose proof (from_sorted L (g_off s) HL) as S. rewrite Hfrom in S.
